@@ -1,21 +1,81 @@
 import D2V.Model.Fmt
-/-! C03 — Formatting is idempotent.  (Structural fragment; see props/C03/entry.json for what is proved vs sampled.) -/
+import D2V.Proofs.FmtFix
+/-!
+C03 — Formatting is idempotent.
+
+`fmtFile` models d2format.Format and `normFile` models d2parser.Parse ∘ d2format.Format on the structural fragment
+(both tied to the real code by the correspondence stream of `./check C03`).  Idempotence of the formatter on the
+fragment is `fmtFile (normFile a) = fmtFile a`.
+
+* `C03_idempotent_struct_partial` proves it for every tree in the decidable region `stableFile`
+  (board blocks already last in a multi-line map and non-empty, no board keyword in odd letter case, a one-line file
+  holds one declaration, strings free of line breaks).
+* `C03_full_statement` (no hypothesis) is the stated goal; it is FALSE for the unchanged formatter:
+  one counterexample theorem per excluded clause, each replayed on the implementation by the check's corpus.
+-/
 namespace D2V.Fmt
-open D2V.Gen
 
-/-- every reserved keyword is its own lower-casing (the keyword table is regenerated from d2ast/keywords.go) -/
-theorem reserved_lower_fixed : ∀ k ∈ FmtKw.reservedKeywords, lower k = k := by decide
+/-- the property on the fragment, at full strength -/
+def C03_full_statement : Prop := ∀ a : N, fmtFile (normFile a) = fmtFile a
 
-theorem isReserved_lower_fixed (s : Text) (h : isReserved s = true) : lower s = s := by
-  have hm : s ∈ FmtKw.reservedKeywords := by
-    simpa [isReserved, List.contains_iff_mem] using h
-  exact reserved_lower_fixed s hm
+/-- Formatting the formatted text again reproduces it byte for byte (structural fragment, region `stableFile`). -/
+theorem C03_idempotent_struct_partial (a : N) (h : stableFile a = true) : fmtFile (normFile a) = fmtFile a :=
+  fix_file a h
+
+/-- the nested version used by the file theorem: any stable value / map node at any indentation -/
+theorem C03_fixpoint_nested (n : N) (ind : Nat) (h : stable n = true) : fmtV ind (normL ind n) = fmtV ind n :=
+  fix_V n ind h
 
 /-- keyword lower-casing of one unquoted text is idempotent -/
-theorem lowerKw_idem (s : Text) : lowerKw (lowerKw s) = lowerKw s := by
-  unfold lowerKw
-  by_cases h : isReserved (lower s) = true
-  · simp [h, isReserved_lower_fixed _ h]
-  · simp [h]
+theorem C03_lowerKw_idem (s : Text) : lowerKw (lowerKw s) = lowerKw s := lowerKw_idem s
+
+/-! ### concrete trees -/
+
+def u (s : String) : Str := { q := .u, raw := s.toList, val := s.toList }
+def kh (s : String) : KeyHead := { amp := 0, key := some [u s], src := none, hops := [], eidx := .none, ekey := none }
+/-- `name` / `name: {…}` as a map node -/
+def kn (blank l0 : Bool) (s : String) (v : N) : N := .mnode blank l0 (.key (kh s) none v)
+def sv (s : String) : N := .scalar (.str (u s))
+
+/-- `a⏎b: [1; x]⏎⏎layers: {⏎  l: {⏎    SHAPE: circle⏎  }⏎}⏎` -/
+def exStable : N :=
+  .map false [kn false true "a" .absent,
+    kn false false "b" (.arr true [.item false (.scalar (.num ['1'])), .item false (sv "x")]),
+    kn true false "layers" (.map false [kn false false "l" (.map false [kn false false "shape" (sv "circle")])])]
+
+/-- the hypothesis of the theorem is satisfiable by a tree with a board block, an array and nesting -/
+example : stableFile exStable = true := by decide
+
+/-- `layers: {l: {a}}⏎⏎b⏎` : a board block that is not last -/
+def cxBoardNotLast : N :=
+  .map false [kn false true "layers" (.map true [kn false true "l" (.map true [kn false true "a" .absent])]),
+    kn true false "b" .absent]
+
+theorem C03_cx_board_not_last : fmtFile (normFile cxBoardNotLast) ≠ fmtFile cxBoardNotLast := by decide
+
+/-- `a; b` (no final newline): a one-line file with two declarations -/
+def cxFileOneLine : N := .map true [kn false true "a" .absent, kn false true "b" .absent]
+
+theorem C03_cx_file_one_line : fmtFile (normFile cxFileOneLine) ≠ fmtFile cxFileOneLine := by decide
+
+/-- `y⏎x: { layers: {a: {b}} }⏎` : a board block inside a one-line map -/
+def cxBoardInOneLineMap : N :=
+  .map false [kn false true "y" .absent,
+    kn false false "x" (.map true [kn false false "layers" (.map true [kn false false "a" (.map true [kn false false "b" .absent])])])]
+
+theorem C03_cx_board_in_one_line_map :
+    fmtFile (normFile cxBoardInOneLineMap) ≠ fmtFile cxBoardInOneLineMap := by decide
+
+/-- `a: {layers}⏎` : a dropped (empty) board empties its map only after the first pass -/
+def cxEmptyCascade : N := .map false [kn false true "a" (.map true [kn false true "layers" .absent])]
+
+theorem C03_cx_empty_cascade : fmtFile (normFile cxEmptyCascade) ≠ fmtFile cxEmptyCascade := by decide
+
+/-- `x: {⏎  Steps⏎}⏎` : a board keyword in odd case becomes a board node after lower-casing -/
+def cxKeyCase : N := .map false [kn false true "x" (.map false [kn false false "Steps" .absent])]
+
+theorem C03_cx_board_keyword_case : fmtFile (normFile cxKeyCase) ≠ fmtFile cxKeyCase := by decide
+
+theorem C03_full_statement_false : ¬ C03_full_statement := fun h => C03_cx_board_not_last (h _)
 
 end D2V.Fmt
